@@ -222,6 +222,8 @@ def _analyse(case, tier, props, target_keys, seed, res):
         res["render_refused"] = p.meta.get("error")
         return
     meta = p.meta
+    if "C04" in props and "balanced" in case.tags and getattr(case, "composition", None) is not None:
+        _c04_as_read(case, meta, res)
     jac_terms = {}  # tdir -> dict (r,c)->term   (for C03 cross-layout agreement)
     for t in targets:
         tdir = t["dir"]
@@ -978,6 +980,35 @@ def _c04(case, p, meta, tdir, res, fex, q, slots, NS, tag):
         else:
             _unk(res, "C04", name, r)
     _c04_helper(case, p, meta, tdir, res, q, slots, NS, tag, counts)
+
+
+def _c04_as_read(case, meta, res):
+    """side obligation (concrete, one per reaction): the network the generator holds after reading a balanced
+    input is still balanced by the corpus' hand-written composition table, and every species it mentions is in
+    that table.  An input species silently dropped while the reaction is constructed unbalances the dynamics
+    before any code is emitted (and can leave emitted code that does not compile, where the solver obligations
+    have nothing to work on)."""
+    comp = case.composition
+    for i, r in enumerate(meta["reactions"]):
+        name = f"{case.name}:as-read:reaction[{i}]"
+        tot, q, unknown = {}, 0, []
+        for sign, names in ((1, r["reactants"]), (-1, r["products"])):
+            for n in names:
+                c = comp.get(case.canon(n))
+                if c is None:
+                    unknown.append(n)
+                    continue
+                q += sign * c[1]
+                for e, k in c[0].items():
+                    tot[e] = tot.get(e, 0) + sign * k
+        bad = {e: k for e, k in tot.items() if k}
+        if unknown:
+            _viol(res, "C04", name, f"reaction {i} as held by the network mentions {unknown}, not a species of the balanced input", {"case": case.name, "reaction_as_read": r, "spec": _small_spec(case)})
+        elif bad or q:
+            _viol(res, "C04", name, f"reaction {i} of a balanced input is held by the network as {' + '.join(r['reactants'])} -> {' + '.join(r['products'])}: unbalanced in {bad or ''}{' charge' if q else ''}",
+                  {"case": case.name, "reaction_as_read": r, "imbalance": {"elements": bad, "charge": q}, "spec": _small_spec(case), "replay_note": "Network built from the spec; print its reaction_list"})
+        else:
+            _ok(res, "C04")
 
 
 def _c04_helper(case, p, meta, tdir, res, q, slots, NS, tag, counts):
